@@ -1,46 +1,47 @@
 // concrete playback of Kani counterexample for harness c17_k1_lazy
 // re-run: ./check C17 --replay /verif/replays/C17-c17_k1_lazy.rs
-/// Test generated for harness `layout::verif_kani::c17_k1_lazy` 
-///
-/// Check for `assertion`: "assertion failed: ra.is_some() == expect_fire"
-
+// Test generated for harness `layout::verif_kani::c17_k1_lazy`
+// 
+// Check for `assertion`: "assertion failed: own_rel_left ==
+// total_own_releases.saturating_sub(expect_taps.saturating_sub(1))"
+// 
 #[test]
-fn kani_concrete_playback_c17_k1_lazy_5700846253919181238() {
+fn kani_concrete_playback_c17_k1_lazy_14900275100545632985() {
     let concrete_vals: std::vec::Vec<std::vec::Vec<u8>> = vec![
-        // 3ul
-        vec![3, 0, 0, 0, 0, 0, 0, 0],
+        // 2ul
+        vec![2, 0, 0, 0, 0, 0, 0, 0],
+        // 65534
+        vec![254, 255],
         // 1
         vec![1, 0],
-        // 1
-        vec![1, 0],
-        // 2
-        vec![2, 0],
         // 65535
         vec![255, 255],
-        // 65535
-        vec![255, 255],
-        // 2
-        vec![2],
+        // 0
+        vec![0, 0],
+        // 0
+        vec![0, 0],
+        // 255
+        vec![255],
         // 3ul
         vec![3, 0, 0, 0, 0, 0, 0, 0],
         // 0
         vec![0, 0],
-        // 0
-        vec![0],
-        // 256
-        vec![0, 1],
+        // 1
+        vec![1],
+        // 65535
+        vec![255, 255],
+        // 1
+        vec![1, 0],
+        // 1
+        vec![1],
+        // 65535
+        vec![255, 255],
         // 0
         vec![0, 0],
         // 0
         vec![0],
-        // 258
-        vec![2, 1],
-        // 1
-        vec![1, 0],
-        // 0
-        vec![0],
-        // 32768
-        vec![0, 128],
+        // 65535
+        vec![255, 255],
     ];
     kani::concrete_playback_run(concrete_vals, c17_k1_lazy);
 }
